@@ -18,9 +18,14 @@ def gen(rng, tier):
         D = common.random_divisor(rng, G); small = common.genus(G) <= 3 and abs(sum(D)) <= 5 and max(abs(x) for x in D) <= 6
         calls = []; session = rng.random() < 0.35 and not large       # configuration session: one CFConfig object, tests interleaved with moves, chips >= 0
         if session: D = [rng.randint(0, 3) for _ in range(n)]
+        scaled = (not session) and (not large) and bool(G["edges"]) and rng.random() < 0.15       # magnitudes beyond 2^53: exact integers needed by every in-place call
+        if scaled:
+            if rng.random() < 0.6: D = common.random_divisor(rng, G, band="low")
+            G, D = common.scale_game(rng, G, D); small = False
         for _ in range(rng.randint(6, 12) if session else rng.randint(3, 10)):
             k = rng.choice(PCFG) if session else rng.choice(PURE + INPLACE + MOVES + MOVES)
             if k in ("rank", "rank_opt") and not small: k = "is_winnable"
+            if scaled and k not in ("ewd", "ewd_opt", "is_winnable", "q_reduction", "dhar_run", "lineq", "lineq_zero", "lap_apply", "arith", "lap_queries"): k = rng.choice(["ewd_opt", "is_winnable", "q_reduction", "ewd", "lineq"])
             if large and k in ("rank", "rank_opt", "superstable", "pcfg_superstable", "gon_game", "gon_strategy"): k = rng.choice(["greedy", "is_winnable", "lineq", "ewd_opt", "q_reduction", "legal"])
             calls.append([k, rng.randrange(n), [rng.randint(-2, 2) for _ in range(n)]])
         if rng.random() < 0.3: D[rng.randrange(n)] -= sum(D)      # degree 0: reaches the EWD path inside linear_equivalence(D, 0)
